@@ -135,11 +135,15 @@ def check_pipeline(trans, params=(), dopts=(), split=None, src='export', src_opt
     if st != 0:
         bad('cli-failed', 'exit status %r %s' % (st, cli.describe(exc)))
         return out
-    if split:
-        files = sorted(glob.glob(dest + '.*'), key=lambda p: int(p.rsplit('.', 1)[1]))
-        got = ''.join(open(p, encoding='utf-8').read() for p in files)
-    else:
-        got = open(dest, encoding='utf-8').read() if os.path.exists(dest) else None
+    try:
+        if split:
+            files = sorted(glob.glob(dest + '.*'), key=lambda p: int(p.rsplit('.', 1)[1]))
+            got = ''.join(codecs.read_out(p) for p in files)
+        else:
+            got = codecs.read_out(dest) if os.path.exists(dest) else None
+    except codecs.DecodeError as e:
+        bad('undecodable', str(e))
+        return out
     if got is None:
         bad('no-output', 'the destination file was not written')
     elif got != api_text:
@@ -291,7 +295,11 @@ def check_grammar_run(gramtype, markov, fmt, dest_name):
         if not os.path.exists(path):
             bad('missing-file', '%s was not written; the directory holds %r' % (os.path.basename(path), sorted(os.listdir(d))))
             continue
-        got = open(path, encoding='utf-8').read()
+        try:
+            got = codecs.read_out(path)
+        except codecs.DecodeError as e:
+            bad('undecodable', str(e))
+            continue
         if sorted(got.split('\n')) != sorted(want.split('\n')):
             gl, wl = set(got.split('\n')), set(want.split('\n'))
             bad('cli-differs-from-api', '.%s file: lines only in the command output %r, only in the library output %r'
